@@ -263,8 +263,20 @@ class StdioBurst(Suite):
                         if ver:
                             c["ver"] = ver
                         out.append(c)
-        # results that are not an object, falsy, or null: the response still reaches its caller
-        for payload in (None, {}, [], 0, False, "", [1, None], "text", 7.5, {"n": None}):
+        # the SECOND connection on one client object, after a first whose child died in the middle of a
+        # line / of a multi-byte character / after a complete line: the new child's answer still arrives
+        for prior in ("midline", "midchar", "clean", "midline+midchar"):
+            for k in (0, 3):
+                for split in (False, True):
+                    for ver in (None, "2025-06-18"):
+                        c = {"k": k, "split": split, "id": f"burst-{k}", "D": 4 * P, "prior": prior}
+                        if ver:
+                            c["ver"] = ver
+                        out.append(c)
+        # results that are not an object, falsy, or null: the response still reaches its caller; text with
+        # characters some line splitters treat as line ends, written raw (as orjson / JSON.stringify do)
+        for payload in (None, {}, [], 0, False, "", [1, None], "text", 7.5, {"n": None},
+                        {"t": "a\u2028b"}, {"t": "x\u2029"}, {"t": "\x85y"}, "\u2028", {"\u2029k": ["\x0b", "\x0c", "\x1c", "\x1d", "\x1e"]}):
             for k in (0, 2):
                 for ver in (None, "2025-06-18"):
                     c = {"k": k, "split": False, "id": f"burst-{k}", "D": 4 * P, "payload": payload}
@@ -292,7 +304,7 @@ class StdioBurst(Suite):
             lines = [_json.dumps({"jsonrpc": "2.0", "method": "notifications/message", "params": {"i": i}}) for i in range(case["k"])]
             if case.get("poison"):
                 lines.append(poison_line(case["poison"]))
-            lines.append(_json.dumps({"jsonrpc": "2.0", "id": case["id"], "result": StdioBurst.want(case)}))
+            lines.append(_json.dumps({"jsonrpc": "2.0", "id": case["id"], "result": StdioBurst.want(case)}, ensure_ascii=False))
             if case.get("batch"):
                 items = [_json.loads(x) for x in lines]
                 resp = items.pop()
@@ -301,11 +313,25 @@ class StdioBurst(Suite):
                 lines = [_json.dumps(items)]
             data = ("\n".join(lines) + "\n").encode()
             chunks = [data] if not case["split"] else [data[: len(data) // 2], data[len(data) // 2:]]
+            client = mod.StdioClient(StdioParameters(command="verif-fake-child", args=[]))
+            o = {}
+            for part in (case.get("prior") or "").split("+"):
+                if not part:
+                    continue
+                tail = {"midline": b'{"jsonrpc":"2.0","method":"notifications/message","params":{"i":"left ov',
+                        "midchar": b'{"jsonrpc":"2.0","method":"notifications/message","params":{"i":"caf\xc3',
+                        "clean": b'{"jsonrpc":"2.0","method":"notifications/message","params":{"i":0}}\n'}[part]
+                p0 = stdio_h.FakeProcess([("chunk", tail)])
+                holder["proc"] = p0
+                p0.client = client
+                try:
+                    async with client:
+                        await anyio.sleep(8 * vloop.TICK)
+                except Exception as ex:  # noqa
+                    o["prior_exc"] = type(ex).__name__
             proc = stdio_h.FakeProcess([("chunk", c) for c in chunks])
             holder["proc"] = proc
-            client = mod.StdioClient(StdioParameters(command="verif-fake-child", args=[]))
             proc.client = client
-            o = {}
             try:
                 async with client:
                     read, write = client.get_streams()
@@ -353,7 +379,7 @@ class StdioBurst(Suite):
         return None if (o.get("outcome"), o.get("p")) == (m.get("outcome"), m.get("p")) else "differs"
 
     def kind(self, case, o):
-        return f"stdio-burst/{o.get('outcome')}/k{'<100' if case['k'] < 100 else '>=100'}/ver={case.get('ver')}" + ("/batch" if case.get("batch") else "") + (f"/monitor={case['monitor']}" if case.get("monitor") else "") + ("/payload=" + type(case["payload"]).__name__ if "payload" in case else "") + ("/poison=" + case["poison"] if case.get("poison") else "")
+        return f"stdio-burst/{o.get('outcome')}/k{'<100' if case['k'] < 100 else '>=100'}/ver={case.get('ver')}" + ("/batch" if case.get("batch") else "") + (f"/monitor={case['monitor']}" if case.get("monitor") else "") + (f"/prior={case['prior']}" if case.get("prior") else "") + ("/payload=" + type(case["payload"]).__name__ if "payload" in case else "") + ("/poison=" + case["poison"] if case.get("poison") else "")
 
     def nontrivial(self, case, o):
         return case["k"] > 0
